@@ -36,6 +36,8 @@ type Scenario struct {
 	Horizon       int
 	Bg            []string
 	BgTimers      []string
+	// MinOutcomes: the run is rejected as vacuous if fewer distinct outcomes are reached (0 = no such check).
+	MinOutcomes int
 	// Body runs as task 0 on a fresh fixture it creates itself.
 	Body func()
 	// Invariant (optional) is evaluated after every scheduler step while all tasks are parked.
@@ -471,6 +473,15 @@ func replay(path string) {
 
 // Main runs the check: registers the scenarios, serves as a worker when asked to, otherwise explores.
 func Main(id string, scenarios []*Scenario, assumptions []string) {
+	MainWith(id, scenarios, assumptions, nil)
+}
+
+// Extra lets a harness add a sequential (history) enumeration of its own, run with vsched.RunOnce on the
+// default schedule, to the same check: it reports violations through r and returns what it covered.
+type Extra func(r *vcommon.Run) (states, transitions, execs int64, rule string)
+
+// MainWith is Main plus an extra enumeration.
+func MainWith(id string, scenarios []*Scenario, assumptions []string, extra Extra) {
 	for _, s := range scenarios {
 		registry[s.Name] = s
 	}
@@ -535,8 +546,8 @@ func Main(id string, scenarios []*Scenario, assumptions []string) {
 				break // the first counterexample found has the fewest deviations
 			}
 		}
-		if len(final.Outcomes) < 2 && len(final.Fails) == 0 && completed >= 1 {
-			vcommon.Harness("vacuous: scenario %s produced a single distinct outcome in %d executions (nothing collided)", s.Name, final.Execs)
+		if len(final.Outcomes) < s.MinOutcomes && len(final.Fails) == 0 && completed >= 1 {
+			vcommon.Harness("vacuous: scenario %s produced %d distinct outcome(s) in %d executions, fewer than the %d the scenario is known to reach (nothing collided)", s.Name, len(final.Outcomes), final.Execs, s.MinOutcomes)
 		}
 		totalExecs += final.Execs
 		totalSteps += final.Steps
@@ -581,13 +592,22 @@ func Main(id string, scenarios []*Scenario, assumptions []string) {
 		}
 		rules = append(rules, fmt.Sprintf("%s: all schedules with <=%d deviations", s.Name, completed))
 	}
+	extraRule := ""
+	if extra != nil {
+		st, tr, ex, rule := extra(r)
+		totalPoints += st
+		totalSteps += tr
+		totalExecs += ex
+		r.Eval(int(ex))
+		extraRule = "; " + rule
+	}
 	r.Set("states", totalPoints)
 	r.Set("transitions", totalSteps)
 	r.Set("traces_validated_against_impl", totalExecs)
 	r.Set("scenarios", perScn)
 	r.Rule = "stateless DFS over scheduler choice points (task to run, ready select case, timer firing) of the instrumented REAL code; " +
 		"states = choice points visited (schedule prefixes), transitions = scheduler steps executed, every trace is an execution of the implementation; " +
-		"distinct = distinct observation traces per scenario; " + strings.Join(rules, "; ")
+		"distinct = distinct observation traces per scenario; " + strings.Join(rules, "; ") + extraRule
 	r.Exhaustive = allComplete
 	stopPool()
 	r.Finish()
